@@ -42,8 +42,70 @@ void hx_gen(Rng &rng, const std::string &tier)
     emit("hist I 1 x,y | (+ 0 ((Cos (+ 0 ((s x) 1) ((s y) 1))) 1) ((Sin (+ 0 ((s x) 1) ((s y) 1))) 1) ((s z) 1));I 0 y | (+ 0 ((s x0) 1) ((s y) 1))",
          "fixed-failed-init-then-init");
     emit("hist I 0 x | (* 2 ((k E) (s x)));C 4059000000000000", "fixed-mul-exp");
+    // a cse temporary name (x0 / x1) that is an input occurring only as a bare output
+    emit("hist I 1 x0,y | (s x0) , (+ 0 ((Cos (Sin (s y))) 1) ((Sin (s y)) 1));C 3fe8000000000000,3ff4000000000000", "fixed-bare-x0-output");
+    emit("hist I 1 x0,y | (+ 0 ((Cos (Sin (s y))) 1) ((Sin (s y)) 1)) , (s x0);C 3fe8000000000000,3ff4000000000000", "fixed-bare-x0-output");
+    emit("hist I 1 x0,x1,y | (+ 0 ((Cos (Sin (s y))) 1) ((* 1 ((Sin (s y)) 1) ((s x0) 1)) 1)) , (+ 0 ((^ (+ 1 ((s y) 1)) 1/2) 1) ((^ (k E) (+ 1 ((s y) 1))) 1)) , (s x1);C 3fe8000000000000,3ff4000000000000,4004000000000000",
+         "fixed-bare-x1-output");
     emit("hist I 0 x | (Sign (s x)) , (Floor (s x)) , (Ceiling (s x)) , (Truncate (s x));C c004000000000000;C 0000000000000000;C 400c000000000000",
          "fixed-rounding-fns");
+    // ---- cse temporary-name family: inputs named like cse temporaries (x0, x1, x2) that are (a) bare outputs,
+    // (b) used inside exactly one output, (c) unused, next to outputs that share subexpressions so that cse invents
+    // temporaries; cse on and off.  (A cse that does not reserve such a name binds the output to the temporary.)
+    long nfam = tier == "thorough" ? 600 : 90;
+    n -= nfam;
+    for (long i = 0; i < nfam; i++) {
+        TreeGen g(rng, true);
+        static const char *TN[] = {"x0", "x1", "x2"};
+        for (auto nm : {"x0", "x1", "x2", "y", "z"})
+            g.env[nm] = 0.25 * (double)rng.range(-10, 10) + 0.125;
+        g.syms = {symbol("y"), symbol("z")};
+        std::vector<std::string> ins = {"y", "z"};
+        vec_basic outs;
+        std::string roles;
+        RCP<const Basic> sh1 = g.nonnum(1 + (int)rng.below(2)), sh2 = g.nonnum(1);
+        int nshared = 1 + (int)rng.below(2); // one or two temporaries
+        bool any = false;
+        for (int k = 0; k < 3; k++) {
+            unsigned role = rng.below(5); // 0 absent, 1 bare output, 2 inside one output, 3 unused input, 4 bare and inside
+            if (k == 2 && !any && role == 0)
+                role = 1;
+            if (role == 0)
+                continue;
+            any = true;
+            ins.push_back(TN[k]);
+            RCP<const Basic> xk = symbol(TN[k]);
+            roles += std::string(TN[k]) + (role == 1 ? "b" : role == 2 ? "i" : role == 3 ? "u" : "bi");
+            if (role == 1 || role == 4)
+                outs.push_back(xk);
+            if (role == 2 || role == 4)
+                outs.push_back(add(mul(xk, sin(sh1)), cos(sh1)));
+        }
+        outs.push_back(add(mul(g.small_rat(), sin(sh1)), cos(sh1)));
+        if (nshared == 2)
+            outs.push_back(add(tanh(sh2), mul(g.small_rat(), atan(sh2))));
+        for (size_t k = ins.size(); k > 1; k--)
+            std::swap(ins[k - 1], ins[rng.below(k)]);
+        for (size_t k = outs.size(); k > 1; k--)
+            std::swap(outs[k - 1], outs[rng.below(k)]);
+        std::vector<std::string> od, xs;
+        for (auto &e : outs)
+            od.push_back(vsexp::dump(*e));
+        for (auto &nm : ins)
+            xs.push_back(bits(g.env[nm]));
+        bool cse = rng.coin(3, 4);
+        std::string hist = std::string("I ") + (cse ? "1 " : "0 ") + join(ins, ",") + " | " + join(od, " , ") + ";C " + join(xs, ",");
+        if (rng.coin(1, 3)) // re-initialise the same visitor with the other setting
+            hist += std::string(";I ") + (cse ? "0 " : "1 ") + join(ins, ",") + " | " + join(od, " , ") + ";C " + join(xs, ",");
+        std::string tag = "tmpname";
+        if (roles.find('b') != std::string::npos)
+            tag += "-bare";
+        if (roles.find('i') != std::string::npos)
+            tag += "-inside";
+        if (roles.find('u') != std::string::npos)
+            tag += "-unused";
+        emit("hist " + hist, tag + (cse ? "-I1" : "-I0"));
+    }
     for (long i = 0; i < n; i++) {
         TreeGen g(rng, true);
         // environment for every pool symbol
